@@ -17,24 +17,25 @@ import (
 )
 
 type Obligation struct {
-	Name    string
-	Kind    string // pre, post, inv.init, inv.preserve, safe, call, lemma, frame, canary, cover
-	Func    string
-	Pos     string
-	Assume  []*Term
-	Goal    *Term // nil for sat-queries (canary/cover)
-	Expect  string // "unsat" (proved) for proof obligations, "sat" for covers/canaries
-	Note    string
-	Src     string
-	wenv    *Env // environment in which a known-finding witness predicate is evaluated
+	Name   string
+	Kind   string // pre, post, inv.init, inv.preserve, safe, call, lemma, frame, canary, cover
+	Func   string
+	Pos    string
+	Assume []*Term
+	Goal   *Term  // nil for sat-queries (canary/cover)
+	Expect string // "unsat" (proved) for proof obligations, "sat" for covers/canaries
+	Note   string
+	Src    string
+	wenv   *Env // environment in which a known-finding witness predicate is evaluated
 }
 
 type Verifier struct {
-	c    *TermCtx
-	tm   *TypeMap
-	fset *token.FileSet
-	prog *ssa.Program
-	pkgs []*packages.Package
+	skipLabels, onlyLabels []string
+	c                      *TermCtx
+	tm                     *TypeMap
+	fset                   *token.FileSet
+	prog                   *ssa.Program
+	pkgs                   []*packages.Package
 	// package path -> types.Package
 	typePkgs map[string]*types.Package
 	ssaPkgs  map[string]*ssa.Package
@@ -697,4 +698,22 @@ func (v *Verifier) parseSortText(txt string) (*Sort, error) {
 		return s, err
 	}
 	return rec()
+}
+
+// clauseSelected tells whether a labelled postcondition / call-site clause belongs to this run (config skip_labels / only_labels).
+func (v *Verifier) clauseSelected(label string) bool {
+	for _, p := range v.skipLabels {
+		if strings.HasPrefix(label, p) {
+			return false
+		}
+	}
+	if len(v.onlyLabels) == 0 {
+		return true
+	}
+	for _, p := range v.onlyLabels {
+		if strings.HasPrefix(label, p) {
+			return true
+		}
+	}
+	return false
 }
